@@ -72,6 +72,53 @@ def boundary_sup_case(rng, t):
             e["sup"] = v
     return near(rng, base)
 
+
+def edges_pre(t):
+    for e, c in kids(t):
+        yield e, c
+        yield from edges_pre(c)
+
+def nonfinite_cases(rng, g, t, flags):
+    """collapse by length / support where some branches, or the threshold, are NaN / +Inf / -Inf in the
+    Go run.  The tree the judge sees carries a placeholder on the same side of the comparison, and the
+    rational threshold the judge sees selects the same branches (NaN <= t, NaN < s are false)."""
+    ops = []
+    el = list(edges_pre(t))
+    inner = [i for i, (e, c) in enumerate(el) if kids(c)]
+    if not inner:
+        return ops
+    # --- lengths
+    kind = rng.choice(["nan", "nan", "inf", "ninf"])
+    l = rng.choice([Fraction(0), g.dyadic(256, 64), g.dyadic(64, 64)])
+    idx = sorted(set(rng.sample(inner, min(len(inner), rng.randint(1, 2))) + rng.sample(range(len(el)), 1)))
+    for i in idx:
+        el[i][0]["len"] = (l + 1) if kind != "ninf" else Fraction(0)
+    for rr, rt in [(False, False), flags()]:
+        ops.append({"op": Sym("collapse_len"), "tree": T(t), "l": l, "rr": rr, "rt": rt,
+                    "nanlen": idx, "lenspecial": Sym(kind), "nonfinite": "len " + kind})
+    # --- threshold
+    kind = rng.choice(["nan", "inf", "ninf"])
+    lj = Fraction(10**6) if kind == "inf" else Fraction(-2)
+    rr, rt = flags()
+    ops.append({"op": Sym("collapse_len"), "tree": T(t), "l": lj, "rr": False, "rt": False, "lspecial": Sym(kind),
+                "nonfinite": "threshold " + kind})
+    ops.append({"op": Sym("collapse_len"), "tree": T(t), "l": lj, "rr": rr, "rt": rt, "lspecial": Sym(kind),
+                "nonfinite": "threshold " + kind})
+    # --- supports
+    kind = rng.choice(["nan", "nan", "inf", "ninf"])
+    sthr = rng.choice([g.dyadic(64, 64) + Fraction(1, 64), Fraction(1, 2), Fraction(1)])
+    idx = sorted(rng.sample(inner, min(len(inner), rng.randint(1, 2))))
+    for i in idx:
+        el[i][0]["sup"] = (sthr + 1) if kind != "ninf" else Fraction(0)
+    for rr in [False, flags()[0]]:
+        ops.append({"op": Sym("collapse_sup"), "tree": T(t), "s": sthr, "rr": rr, "rt": False,
+                    "nansup": idx, "supspecial": Sym(kind), "nonfinite": "sup " + kind})
+    kind = rng.choice(["nan", "inf", "ninf"])
+    sj = Fraction(10**6) if kind == "inf" else Fraction(-2)
+    ops.append({"op": Sym("collapse_sup"), "tree": T(t), "s": sj, "rr": False, "rt": False, "sspecial": Sym(kind),
+                "nonfinite": "sthreshold " + kind})
+    return ops
+
 def gen(rng, tier):
     g = Gen(rng)
     out = []
@@ -132,8 +179,10 @@ def gen(rng, tier):
             if s_ is not None:
                 for rr in [False, flags()[0]]:
                     ops.append({"op": Sym("collapse_sup"), "tree": T(t), "s": s_, "rr": rr, "rt": False, "boundary": True})
+        if rng.random() < (0.5 if tier != "thorough" else 0.3):
+            ops += nonfinite_cases(rng, g, t, flags)
         for o in ops:
-            bd = o.pop("boundary", False)
+            bd = o.pop("boundary", False) or o.pop("nonfinite", False)
             out.append({"sx": sx(o), "meta": {"op": o["op"].s, "ntips": ntips, "rooted": rooted, "boundary": bd,
                                               "rr": bool(o.get("rr")), "rt": bool(o.get("rt"))}})
     return out
